@@ -11,6 +11,7 @@ import (
 	"os/exec"
 	"path/filepath"
 	"sort"
+	"strconv"
 	"strings"
 	"testing/synctest"
 	"time"
@@ -314,7 +315,24 @@ func (o *oracle) snapshotPreTamper() {
 // recordIntended remembers the leaves sunlight itself put into a staging bundle
 // or data tile, independently of what storage holds later.
 func (o *oracle) recordIntended(key string, data []byte) {
+	o.recordIntendedFrom(key, data, -1)
+}
+
+// stagedBad is a leaf below the pre-tamper size that sunlight itself put into
+// the staging bundle of tree size Size with other bytes than the committed ones.
+type stagedBad struct {
+	Size, Index int64
+	Step        int
+}
+
+func (o *oracle) recordIntendedFrom(key string, data []byte, stagedSize int64) {
 	if strings.HasPrefix(key, "staging/") {
+		var n int64 = -1
+		if i := strings.IndexByte(key[len("staging/"):], '-'); i > 0 {
+			if v, err := strconv.ParseInt(key[len("staging/"):len("staging/")+i], 10, 64); err == nil {
+				n = v
+			}
+		}
 		raw, err := gunzip(data)
 		if err != nil {
 			return
@@ -330,7 +348,7 @@ func (o *oracle) recordIntended(key string, data []byte) {
 				return
 			}
 			if strings.HasPrefix(h.Name, "tile/data/") {
-				o.recordIntended(h.Name, b)
+				o.recordIntendedFrom(h.Name, b, n)
 			}
 		}
 	}
@@ -349,6 +367,9 @@ func (o *oracle) recordIntended(key string, data []byte) {
 	for i, e := range es {
 		idx := c.N*ref.TileWidth + int64(i)
 		o.intended[idx] = append(o.intended[idx], e)
+		if o.tampered && stagedSize >= 0 && idx < int64(len(o.preTamper)) && e.LeafHash() != o.preTamper[idx].LeafHash() {
+			o.stagedBad = append(o.stagedBad, stagedBad{stagedSize, idx, o.w.sim.Step})
+		}
 	}
 }
 
@@ -433,6 +454,12 @@ func (o *oracle) checkTamperHistory() {
 			if t.Root(n) == ev.STH.Root {
 				match = true
 				chosen = cur
+			}
+		}
+		for _, b := range o.stagedBad {
+			if b.Size == n && b.Step < ev.Step {
+				o.v("C08", "rewrote-tampered-leaf", "checkpoint size=%d committed at step %d from a staging bundle in which sunlight itself wrote leaf %d with other bytes than the committed tree holds (tampered right-edge data tile carried forward)", n, ev.Step, b.Index)
+				break
 			}
 		}
 		if !match {
